@@ -19,6 +19,7 @@ def run(ctx):
                         'TLC 1.8, CPython 3.12, harness/bql.py + selectq.py (projection)']
     selectcheck.run_mc_and_replay(ctx, 'group', 3, 2, 4, 3, nonvac=('sharedgroup', 'GroupLaw'))
     selectcheck.record_and_validate(ctx, 'group', ctx.pick(1500, 20000), 30)
+    selectcheck.typed_tables_leg(ctx, 'group', ctx.pick(120, 1500))
     ctx.exhaustive = False
 
 
